@@ -34,15 +34,15 @@
 #define DL_BASE(dl) (__CPROVER_rw_ok((dl), sizeof(zckDL)) && (dl)->zck != NULL && __CPROVER_rw_ok((dl)->zck, sizeof(zckCtx)) && ((dl)->range == NULL || __CPROVER_rw_ok((dl)->range, sizeof(zckRange))))
 #define DR_NODE_WF(dl, r) (__CPROVER_rw_ok((r), sizeof(zckChunk)) && (r)->digest_size == (dl)->zck->chunk_hash_type.digest_size && (r)->digest != NULL && __CPROVER_r_ok((r)->digest, (r)->digest_size) && \
     (r)->src != NULL && CHUNK_WF((r)->src) && (r)->src->zck == (dl)->zck)
-#define DR_IN_LIST(p) ((p) == NULL || (p) == g_dr1 || (p) == g_dr2 || (p) == g_dr3)
-#define DR_LIST_WF(dl) ((dl)->range != NULL && __CPROVER_rw_ok((dl)->range, sizeof(zckRange)) && g_dr1 != NULL && (dl)->range->index.first == g_dr1 && DR_NODE_WF(dl, g_dr1) && g_dr1->next == g_dr2 && \
-    (g_dr2 == NULL ? g_dr3 == NULL : (DR_NODE_WF(dl, g_dr2) && g_dr2->next == g_dr3 && (g_dr3 == NULL || (DR_NODE_WF(dl, g_dr3) && g_dr3->next == NULL)))) && DR_IN_LIST((dl)->range->index.current))
-#define DR_IS_TGT(p) ((g_dr1 != NULL && (p) == g_dr1->src) || (g_dr2 != NULL && (p) == g_dr2->src) || (g_dr3 != NULL && (p) == g_dr3->src))
+#define DR_IN_LIST(p) ((p) == NULL || ((p) != DR_NONE && ((p) == g_dr1 || (p) == g_dr2 || (p) == g_dr3)))
+#define DR_LIST_WF(dl) ((dl)->range != NULL && __CPROVER_rw_ok((dl)->range, sizeof(zckRange)) && !DR_ABSENT(g_dr1) && (dl)->range->index.first == g_dr1 && DR_NODE_WF(dl, g_dr1) && g_dr1->next == DR_PTR(g_dr2) && \
+    (DR_ABSENT(g_dr2) ? DR_ABSENT(g_dr3) : (DR_NODE_WF(dl, g_dr2) && g_dr2->next == DR_PTR(g_dr3) && (DR_ABSENT(g_dr3) || (DR_NODE_WF(dl, g_dr3) && g_dr3->next == NULL)))) && DR_IN_LIST((dl)->range->index.current))
+#define DR_IS_TGT(p) ((!DR_ABSENT(g_dr1) && (p) == g_dr1->src) || (!DR_ABSENT(g_dr2) && (p) == g_dr2->src) || (!DR_ABSENT(g_dr3) && (p) == g_dr3->src))
 #define DL_SHAPE(dl) (DL_CTX_WF(dl) && DR_LIST_WF(dl) && (dl)->zck->index.first != NULL)
 /* what the control-only units keep of the list: its nodes and their target chunks are allocated objects that have
  * ghost names, and every link stays among the named nodes -- nothing about order, length, cycles, sizes, digests */
-#define DR_NODE_NAMED(r) ((r) == NULL || (__CPROVER_rw_ok((r), sizeof(zckChunk)) && DR_IN_LIST((r)->next) && (r)->src != NULL && __CPROVER_rw_ok((r)->src, sizeof(zckChunk))))
-#define DR_NAMED(dl) (DR_NODE_NAMED(g_dr1) && DR_NODE_NAMED(g_dr2) && DR_NODE_NAMED(g_dr3) && ((dl)->range == NULL || (DR_IN_LIST((dl)->range->index.first) && DR_IN_LIST((dl)->range->index.current))))
+#define DR_NODE_NAMED(r) (DR_ABSENT(r) || (__CPROVER_rw_ok((r), sizeof(zckChunk)) && DR_IN_LIST((r)->next) && (r)->src != NULL && __CPROVER_rw_ok((r)->src, sizeof(zckChunk))))
+#define DR_NAMED(dl) (DR_NONE->src == &g_dr_none_tgt && DR_NODE_NAMED(g_dr1) && DR_NODE_NAMED(g_dr2) && DR_NODE_NAMED(g_dr3) && ((dl)->range == NULL || (DR_IN_LIST((dl)->range->index.first) && DR_IN_LIST((dl)->range->index.current))))
 #define DL_CTL(dl) (DL_BASE(dl) && CHUNK_HASH_WF((dl)->zck) && DR_NAMED(dl) && ((dl)->tgt_check == NULL || DR_IS_TGT((dl)->tgt_check)))
 /* positional part (C05): while a chunk is being filled, the descriptor stands at the next byte of its
  * extent, the running hash has been fed exactly the bytes written so far, and the chunk is not valid */
@@ -57,15 +57,17 @@
 #define DL_WIN(dl) ((dl)->write_in_chunk == 0 || (dl)->zck->error_state > 0 || ((dl)->tgt_check != NULL && __CPROVER_r_ok((dl)->tgt_check, sizeof(zckChunk)) && (dl)->tgt_check->valid != 1 && \
     (dl)->write_in_chunk <= (dl)->tgt_check->comp_length && DL_POS(dl) == SV_LO(dl) + (g_off_t)((dl)->tgt_check->comp_length - (dl)->write_in_chunk)))
 /* the watched file offset lies in the extent of a requested chunk that was not valid when the call began */
-#define DR_OPEN1(dl, r) ((r) != NULL && V_OLD((r)->src->valid) != 1 && WW_IN(DL_FD(dl), EXT_LO((dl)->zck, (r)->src), (r)->src->comp_length))
+/* history expressions are evaluated unconditionally at entry: absent entries are named by DR_NONE (spec/ghost_dl.h) */
+#define DR_VALID0(r) V_OLD((r)->src->valid)
+#define DR_OPEN1(dl, r) (!DR_ABSENT(r) && DR_VALID0(r) != 1 && WW_IN(DL_FD(dl), EXT_LO((dl)->zck, (r)->src), (r)->src->comp_length))
 #define DR_OFF_IN_OPEN_EXTENT(dl) (DR_OPEN1(dl, g_dr1) || DR_OPEN1(dl, g_dr2) || DR_OPEN1(dl, g_dr3))
-#define DR_VALID_KEPT1(r) ((r) == NULL || V_OLD((r)->src->valid) != 1 || (r)->src->valid == 1)
+#define DR_VALID_KEPT1(r) (DR_ABSENT(r) || DR_VALID0(r) != 1 || (r)->src->valid == 1)
 /* a chunk is newly marked failed (-1) only by a call that reports 0 */
-#define DR_FAIL_REPORTED1(r, ret) ((r) == NULL || V_OLD((r)->src->valid) == -1 || (r)->src->valid != -1 || (ret) == 0)
+#define DR_FAIL_REPORTED1(r, ret) (DR_ABSENT(r) || DR_VALID0(r) == -1 || (r)->src->valid != -1 || (ret) == 0)
 /* a chunk that was valid when the call began is not the chunk being filled when it ends */
-#define DR_VALID_NOT_SELECTED1(dl, r) ((r) == NULL || V_OLD((r)->src->valid) != 1 || (dl)->tgt_check != (r)->src)
+#define DR_VALID_NOT_SELECTED1(dl, r) (DR_ABSENT(r) || DR_VALID0(r) != 1 || (dl)->tgt_check != (r)->src)
 #define DL_RANGE_ASSIGNS(dl) dl->write_in_chunk, dl->dl_chunk_data, dl->tgt_check, dl->tgt_number, dl->zck->error_state, dl->zck->check_chunk_hash.type, dl->zck->check_chunk_hash.ctx; \
-    dl->range != NULL: dl->range->index.current; g_dr1 != NULL: g_dr1->src->valid; g_dr2 != NULL: g_dr2->src->valid; g_dr3 != NULL: g_dr3->src->valid; \
+    dl->range != NULL: dl->range->index.current; g_dr1->src->valid, g_dr2->src->valid, g_dr3->src->valid; \
     g_fpos, g_wr_bytes, g_io_failed, g_win_bad, g_ww_hit, g_ww_val, g_hu_total, g_hu_seen, g_hu_ptr, g_hu_final, g_hu_inits, g_fin_val, g_fin_total, g_fin_seen, g_fin_ptr, g_mc_diff
 
 /* Split current read into the appropriate chunks and write appropriately */
